@@ -1,12 +1,43 @@
 import Goyang.Model.Pipeline
+import Goyang.Model.Load
 /-
 Resolver driver.
   process <ignoreCircular 0/1> <ignoreNotSupported 0/1> <files in wire format>
       -> `outsideModel <why>` | canonical dump of the Process outcome (Goyang.Model.Dump)
+  processText <ignoreCircular 0/1> <ignoreNotSupported 0/1> (<file name hex> <text hex>)*
+      -> `L <load results>` ` ; ` the same dump: the whole pipeline from raw text in Lean
+         (generic parser → AST builder → registry → resolver); a text that is not accepted is
+         skipped, as `Modules.Parse` returning an error leaves the set unchanged
 -/
 open Goyang Goyang.Proto Goyang.Model
 
+def decPairs : List String → Option (List (List UInt8 × List UInt8))
+  | [] => some []
+  | n :: t :: rest => do
+    let nb ← decBytes n
+    let tb ← decBytes t
+    let r ← decPairs rest
+    some ((nb, tb) :: r)
+  | _ => none
+
+def loadResultName : LoadResult → String
+  | .accepted => "accepted" | .rejectedSyntax => "syntax" | .rejectedBuild => "build" | .rejectedTop => "top"
+  | .rejectedAdd => "add" | .outside w => "outside:" ++ w
+
 def handle : List String → String
+  | "processText" :: ic :: ins :: rest =>
+    match decPairs rest with
+    | none => "outsideModel undecodable"
+    | some texts =>
+      let (reg, results) := loadTexts texts
+      match results.find? (fun r => match r with | .outside _ => true | _ => false) with
+      | some r => "outsideModel " ++ loadResultName r
+      | none =>
+        match reg.mods.findSome? fun m => outside "" m.stmt with
+        | some why => "outsideModel " ++ why
+        | none =>
+          let opts : Opts := { ignoreCircular := ic == "1", ignoreNotSupported := ins == "1" }
+          "L " ++ " ".intercalate (results.map loadResultName) ++ " ; " ++ dumpOutcome (processAll reg opts (plugFull reg))
   | "process" :: ic :: ins :: rest =>
     match Wire.decFiles (rest.length + 1) rest with
     | some (files, []) =>
